@@ -159,3 +159,18 @@ Example sha256_two_blocks :
   sha256 (bytes_of_string "abcdbcdecdefdefgefghfghighijhijkijkljklmklmnlmnomnopnopq")
   = unhex "248d6a61d20638b8e5c026930c3e6039a33ce45964ff2167f6ecedd419db06c1".
 Proof. vm_compute. reflexivity. Qed.
+
+(* ------------------------------------------------------------------ CRC-32 (IEEE 802.3, hash/crc32) *)
+Fixpoint crc_bits (n : nat) (c : N) : N :=
+  match n with
+  | O => c
+  | S k => crc_bits k (if N.odd c then N.lxor (N.shiftr c 1) 3988292384 else N.shiftr c 1)
+  end.
+Definition crc32_update (c : N) (b : bytes) : N :=
+  fold_left (fun c x => crc_bits 8 (N.lxor c x)) b c.
+Definition crc32 (b : bytes) : N := N.lxor (crc32_update 4294967295 b) 4294967295.
+
+Example crc32_check : crc32 (bytes_of_string "123456789") = 3421780262.
+Proof. vm_compute. reflexivity. Qed.
+Example crc32_empty : crc32 [] = 0.
+Proof. vm_compute. reflexivity. Qed.
